@@ -521,6 +521,7 @@ where
 impl<N> Iterator for NumberSetIter<'_, N>
 where
   N: Clone + Copy + Debug + Hash + PartialEq + Eq + NumOps + From<i64> + Ord + PartialOrd,
+  i64: From<N>,
 {
   type Item = N;
 
@@ -534,7 +535,10 @@ where
         self.seq.bitmap[(self.at_bit / 32) as usize] & (1 << (31 - self.at_bit % 32)) != 0;
       self.at_bit += 1;
       if have_one {
-        return Some(N::from(i64::from(self.at_bit - 1)) + self.seq.bitmap_base);
+        // The base comes from the wire and can be anything, so this must not overflow.
+        return Some(N::from(
+          i64::from(self.seq.bitmap_base).wrapping_add((self.at_bit - 1) as i64),
+        ));
       }
     }
     None
@@ -544,6 +548,7 @@ where
 impl<N> DoubleEndedIterator for NumberSetIter<'_, N>
 where
   N: Clone + Copy + Debug + Hash + PartialEq + Eq + NumOps + From<i64> + Ord + PartialOrd,
+  i64: From<N>,
 {
   fn next_back(&mut self) -> Option<Self::Item> {
     while self.at_bit < self.rev_at_bit {
@@ -552,7 +557,9 @@ where
       let have_one =
         self.seq.bitmap[(self.rev_at_bit / 32) as usize] & (1 << (31 - self.rev_at_bit % 32)) != 0;
       if have_one {
-        return Some(N::from(i64::from(self.rev_at_bit)) + self.seq.bitmap_base);
+        return Some(N::from(
+          i64::from(self.seq.bitmap_base).wrapping_add(self.rev_at_bit as i64),
+        ));
       }
     }
     None
